@@ -41,6 +41,8 @@ let wkind = function "put" -> 0 | "del" -> 1 | "reins" -> 2 | "stat" -> 3 | "sta
 let trev () = int_of_n !e.e_tab.t_rev
 let live () =
   List.sort compare (List.map (fun ((k, v), c) -> (int_of_n k, int_of_n v, int_of_n c)) (live_objs !e.e_tab))
+let live_aux () =
+  List.sort compare (List.map (fun (((k, v), c), a) -> (int_of_n k, int_of_n v, int_of_n c, int_of_n a)) (live_objs_aux !e.e_tab))
 let () = read_lines_iter (fun line ->
   match split_ws line with
   | [] -> ()
@@ -75,7 +77,7 @@ let () = read_lines_iter (fun line ->
     start (); quiesce ();
     let ks = function 0 -> "P" | 1 -> "R" | 2 -> "D" | _ -> "E" in
     Printf.printf "rev=%d [%s]\n" (trev ())
-      (String.concat " " (List.map (fun (k, v, c) -> Printf.sprintf "k%d:v%d:%s" k v (ks c)) (live ())))
+      (String.concat " " (List.map (fun (k, v, c, a) -> Printf.sprintf "k%d:v%d:%s:a%d" k v (ks c) a) (live_aux ())))
   | ["wur"; x] ->
     start ();
     let cur = trev () in
